@@ -1,1 +1,4 @@
 """Spec functions for the WAMP session properties."""
+from autobahn.wamp.message import (Hello, Welcome, Abort, Challenge, Authenticate, Goodbye, Error, Publish, Published,
+                                   Subscribe, Subscribed, Unsubscribe, Unsubscribed, Event, EventReceived, Call, Cancel,
+                                   Result, Register, Registered, Unregister, Unregistered, Invocation, Interrupt, Yield)
